@@ -190,7 +190,7 @@ def alias_obligations(ctx, rep, rule="R10f"):
             outs = {("?", "limit")}
         return next(iter(outs)) if len(outs) == 1 else ("?", "paths")
 
-    aliases = ["/dir/.", "/.", "/a/b/.", "dir/.", ".", "/dir/./", "/dir//", "/dir/sub/..", "/dir/./sub"]
+    aliases = ["/dir/.", "/.", "/a/b/.", "dir/.", ".", "/dir/./", "/dir//", "/dir/sub/..", "/dir/./sub", "//dir", "//", "//dir/sub", "/dir//sub"]
     plain = ["/dir", "/", "/dir/.hidden", "/dir/a.b", "/dir/sub", "/a", "/dir/x", "/7", "/dir/a b", "/dir/caf\udce9", "/dir/x.", "/dir/-", "/d/~"]
     problems, n = [], 0
     for word in aliases + plain:
